@@ -21,6 +21,11 @@ TEXT = {
    level_text='~1.6*10^5 generated (validator configuration, document, maxValidationErrors, archive, stream kind) cases per quick run: the load must throw ValidationException iff the model predicts a failing validator, the exception must list exactly the predicted fields with exactly the predicted messages in declaration order (truncated to the first maxValidationErrors failing fields in load order), and every field must hold the document value if loaded and its previous value otherwise; values sit at, just inside and just outside every Range / MinSize / MaxSize bound and the Email 64/63/255 and PhoneNumber digit-count limits.',
    level_note=_NOTE),
 
+ 'C08': dict(engine='pbt', design_ref='DESIGN.md 5/C08',
+   technique='differential property-based testing against independent standard parsers (nlohmann::json, libxml2) and, conversely, an independent free-choice emitter whose documents the library must load to the same value',
+   level_text='~1.6*10^5 generated (tree, configuration) cases per quick run and direction: every document written must decode per the configured encoding/BOM, be accepted by the independent parser and yield the same names, order, nesting, scalar values and attributes; pretty output must differ from compact only by the configured padding; every re-rendering of the same data by the independent emitter (white space, escapes / character references / CDATA, member order, numeric spelling, declaration, encoding, BOM; each first validated by the independent parser) must load to the same value from memory and from streams.',
+   level_note=_NOTE),
+
  'C09': dict(engine='pbt', design_ref='DESIGN.md 5/C09',
    technique='property-based testing in both directions against an independent strict RFC 4180 parser and free-choice writer',
    level_text='~2*10^5 generated tables per quick run: what the library writes (decoded per configured encoding/BOM) must parse under a strict RFC 4180 reference into exactly the original header and cells; what an independent writer renders with random quoting, LF/CRLF, final break and column order must load (by name, into maps and a typed struct with a different request order) to the same rows from memory and from encoded streams; records with a wrong field count must be rejected with ParsingError.',
